@@ -30,7 +30,7 @@ META = {
 }
 
 INVS = ["TypedHaveKind", "UntypedNoKind", "SiteValid", "GroupsDisjoint", "KindInjective", "FrameworkCovered",
-        "CoordsValid", "OneAtATime"]
+        "CoordsValid", "OneAtATime", "CapBothSides"]
 TYPED = ["MethodNotImplementedError", "ProtocolVersionError", "SessionLostError", "ServerDrainingError", "UserSessionLost"]
 BUILTINS_Q = ["ValueError", "KeyError", "TypeError"]
 BUILTINS_T = ["ValueError", "KeyError", "TypeError", "RuntimeError", "AttributeError", "OSError", "BrokenPipeError",
@@ -41,6 +41,7 @@ USER_Q = ["UserError"]
 USER_T = ["UserError", "UserValueError", "UserStrError"]
 SITES_Q = ["init", "init_log", "p1", "p1_emit", "p2", "p2_log"]
 SITES_T = SITES_Q + ["p1_log", "p2_emit", "p3"]
+TIGHT_CAP = 16384      # response caps of the "httptight" / "httptightx" deployments (ErrFaithful!CapTransports)
 MSGS = ["noargs", "empty", "ascii", "unicode", "long", "multiline"]
 
 
@@ -119,6 +120,10 @@ def _world(tr: str):
             w = W.HttpWorld(plain=True)
         elif tr == "httphook":
             w = W.HttpWorld(hook=True)
+        elif tr == "httptight":
+            w = W.HttpWorld(max_response_bytes=TIGHT_CAP)
+        elif tr == "httptightx":
+            w = W.HttpWorld(max_response_bytes=TIGHT_CAP, max_externalized_response_bytes=TIGHT_CAP)
         else:
             raise ValueError(tr)
         _WORLDS[tr] = w
@@ -228,6 +233,7 @@ def _exec(job: dict, fresh: bool = False) -> dict:
             f = W.http_response_facts(rec)
             o["http"].append({"status": f["status"], "marker": f["marker"], "err": f["err"]})
         info["urls"] = [r["url"] for r in w.client.log]
+        info["body_bytes"] = [len(r["body"]) for r in w.client.log]
     return {"obs": o, "info": info}
 
 
@@ -294,7 +300,8 @@ def run(ctx: Ctx) -> None:
               "XTransports": {"unix", "shm", "pipehook", "httphook", "httpsticky", "httpplain"} if quick
               else {"unix", "tcp", "shm", "pipehook", "httphook", "httpsticky", "httpplain"},
               "Chains": {"none", "cause", "context"}, "Depths": {"shallow", "deep"},
-              "Modes": {"iter", "foriter", "token"}}
+              "Modes": {"iter", "foriter", "token"},
+              "CapTransports": {"httptight"} if quick else {"httptight", "httptightx"}}
     nproc = int(os.environ.get("VERIF_PROCS", "8" if quick else "10"))
     pool = mp.get_context("spawn").Pool(nproc, initializer=_warm)       # imports overlap with the TLC enumeration
     try:
